@@ -17,7 +17,7 @@ cvars == <<l, rej, done, pl, bav, arv, bsbuf, bswcur, bsrcur, d1, d2, d3, d4>>
 
 TL == INSTANCE TaskList WITH CapT <- Cap, Vals <- {}, s <- pl, lastop <- d1
 BA == INSTANCE BitArray WITH CapB <- Cap, Masks <- {}, b <- bav, lastop <- d1
-AR == INSTANCE Arrays WITH CapA <- Cap, ElemVals <- {}, a <- arv, lastop <- d1
+AR == INSTANCE Arrays WITH CapA <- Cap, ElemVals <- {}, a <- arv, lastop <- d1, before <- d2
 BS == INSTANCE BitStream WITH CapS <- Cap, Widths <- {}, MaxFields <- 0, buf <- bsbuf, cur <- bswcur, fields <- d2, rcur <- bsrcur, nread <- d3, lastop <- d4
 
 B(x) == IF x THEN 1 ELSE 0
@@ -59,10 +59,12 @@ StepBA(e) ==
 
 StepAR(e) ==
     LET na == CASE e.op = "new" -> AR!ARInit [] e.op = "sset" -> AR!SASet(arv, e.a, e.b) [] e.op = "sfill" -> AR!SAFill(arv, e.a)
-                [] e.op = "sclear" -> AR!SAClear(arv) [] e.op = "demplace" -> AR!DAEmplace(arv, e.a) [] e.op = "dclear" -> AR!DAClear(arv)
-        r  == IF e.op = "demplace" THEN Len(arv.da) ELSE 0
-    IN  IF e.sa # AR!SAIter(na) \/ e.da # na.da \/ e.cnt # Len(na.da) \/ e.r # r \/ e.sempty # B(AR!SAEmpty(na)) \/ e.dempty # B(na.da = <<>>)
-        THEN Bad("array differs from the function / sequence model", [sa |-> AR!SAIter(na), da |-> na.da, r |-> r], e)
+                [] e.op = "sclear" -> AR!SAClear(arv) [] e.op \in {"demplace", "dpush", "dpushm"} -> AR!DAEmplace(arv, e.a) [] e.op = "dclear" -> AR!DAClear(arv)
+                [] e.op = "bemplace" -> AR!DBEmplace(arv, e.a) [] e.op = "bclear" -> AR!DBClear(arv) [] e.op = "dappend" -> AR!DAAppend(arv)
+        r  == IF e.op = "demplace" THEN Len(arv.da) ELSE IF e.op = "bemplace" THEN Len(arv.db) ELSE 0
+    IN  IF e.sa # AR!SAIter(na) \/ e.da # na.da \/ e.dai # na.da \/ e.db # na.db \/ e.cnt # Len(na.da) \/ e.r # r
+           \/ e.sempty # B(AR!SAEmpty(na)) \/ e.dempty # B(na.da = <<>>)
+        THEN Bad("array differs from the function / sequence model", [sa |-> AR!SAIter(na), da |-> na.da, db |-> na.db, r |-> r], e)
         ELSE arv' = na /\ l' = l + 1 /\ Keep /\ UNCHANGED <<pl, bav, bsbuf, bswcur, bsrcur>>
 
 StepBS(e) ==
